@@ -76,9 +76,9 @@ def gen_aq(rng):
         s = rng.choice(sels)
         aq["order"] = (rng.random() < 0.5, s)
     if rng.random() < 0.3:
-        aq["interval"] = rng.choice([1, 3, 10, 60])
+        aq["interval"] = rng.choice([1, 3, 10, 60, "010", "08", "+5", "0900", "-010"])      # decimal, whatever the spelling
     if rng.random() < 0.4:
-        aq["limit"] = rng.choice([0, 1, 10, 1000, -1])
+        aq["limit"] = rng.choice([0, 1, 10, 1000, -1, "010", "+7", "09"])
     if rng.random() < 0.3:
         aq["outfile"] = (rng.random() < 0.4, rng.choice(["/tmp/out.csv", "result file.csv", "o,1.csv", "out"]))
     if rng.random() < 0.3:
@@ -200,8 +200,8 @@ def denote(aq):
         d["groupkey"] = ""
     d["orderby"] = sel_storage(aq["order"][1]) if "order" in aq else ""
     d["reverse"] = aq["order"][0] if "order" in aq else False
-    d["interval"] = aq.get("interval", 5)
-    d["limit"] = aq.get("limit", -1)
+    d["interval"] = int(str(aq.get("interval", 5)), 10)
+    d["limit"] = int(str(aq.get("limit", -1)), 10)
     d["outfile"] = [aq["outfile"][1], aq["outfile"][0]] if "outfile" in aq else None
     d["logformat"] = aq.get("logformat", "")
     return d
@@ -209,7 +209,7 @@ def denote(aq):
 
 MALFORMED = ["from STATS", "where x > 1", "bogus x", "select nosuch(x) from S", "select count(x from S", "select x where a", "select x where a >",
              "select x where a nosuchop 1", "select x where \"a\" > 1", "select x where 1 > \"a\"", "select x set $a", "select x set $a =", "select x set a = b",
-             "select x set $a : b", "select x set \"$a\" = b", "select x set $a = nosuch(b)", "select x set $a = (b)", "select x limit", "select x limit ten",
+             "select x set $a : b", "select x set \"$a\" = b", "select x set $a = nosuch(b)", "select x set $a = (b)", "select x limit", "select x limit ten", "select x limit 0x10", "select x limit 1_0", "select x interval 0x10", "select x interval 1_000", "select x interval 0b101", "select x interval 0o17",
              "select x interval soon", "select x order by y", "select x rorder by count(x)", "select x outfile", "select x outfile a b c", "select x outfile notappend f",
              "select x group", "select x group by", "select x order", "select x order by", "select x from", "select x from A B", "select x logformat",
              "select", "select from X", "select count(x)) from X", "select count((x) from X"]
